@@ -88,14 +88,16 @@ Qed.
 
 (* the signature a client derives from the contract's method entry is the one the program dispatches on *)
 Lemma spec_sig_is_method_sig : forall r, spec_sig_str (spec_of r) = dispatched_sig_str r.
-Proof. intros [[n ps rt] [m |]]; reflexivity. Qed.
+Proof. intros [[n ps rt] doc [m |] d]; reflexivity. Qed.
 
 Lemma spec_of_name : forall r, ms_name (spec_of r) = reg_name r.
-Proof. intros [[n ps rt] [m |]]; reflexivity. Qed.
+Proof. intros [[n ps rt] doc [m |] d]; reflexivity. Qed.
 Lemma spec_of_args : forall r, ms_args (spec_of r) = map py_str (s_params (r_sig r)).
-Proof. intros [[n ps rt] [m |]]; reflexivity. Qed.
+Proof. intros [[n ps rt] doc [m |] d]; reflexivity. Qed.
 Lemma spec_of_returns : forall r, ms_returns (spec_of r) = ret_str py_str (s_ret (r_sig r)).
-Proof. intros [[n ps rt] [m |]]; reflexivity. Qed.
+Proof. intros [[n ps rt] doc [m |] d]; reflexivity. Qed.
+Lemma spec_of_desc : forall r, ms_desc (spec_of r) = reg_desc r.
+Proof. intros [[n ps rt] doc [m |] [d |]]; reflexivity. Qed.
 
 Section Contract.
   Variable hash : string -> bytes.
@@ -106,6 +108,7 @@ Section Contract.
     map ms_name (contract_methods registered) = map reg_name registered /\
     map ms_args (contract_methods registered) = map (fun r => map type_str (s_params (r_sig r))) registered /\
     map ms_returns (contract_methods registered) = map (fun r => ret_str type_str (s_ret (r_sig r))) registered /\
+    map ms_desc (contract_methods registered) = map reg_desc registered /\
     (* and the selector a client computes from each entry is the one the program dispatches on,
        which is the ARC-4 selector of name(argtypes)rettype *)
     contract_selectors hash registered = dispatched_selectors hash registered /\
@@ -120,6 +123,8 @@ Section Contract.
     split.
     { apply map_ext_in'. intro r. rewrite spec_of_returns. destruct (s_ret (r_sig r)); cbn [ret_str]; [apply py_str_type_str | reflexivity]. }
     split.
+    { apply map_ext_in'. apply spec_of_desc. }
+    split.
     { apply map_ext_in'. intro r. unfold selector_of_str. now rewrite spec_sig_is_method_sig. }
     apply map_ext_in'. intro r. unfold selector_of_str, dispatched_sig_str. now rewrite pyteal_sig_is_arc4.
   Qed.
@@ -130,7 +135,7 @@ Theorem dispatched_is_registered_main : forall r, dispatched_sig_str r = arc4_si
 Proof. intro r. apply pyteal_sig_is_arc4. Qed.
 
 (* the case that used to be refuted (before /repo 330bd50): add_method_handler(add, overriding_name="foo") *)
-Definition ex_override : registration := mkReg (mkSig "add" [TUint 64] (Some (TUint 64))) (Some "foo"%string).
+Definition ex_override : registration := mkReg (mkSig "add" [TUint 64] (Some (TUint 64))) None (Some "foo"%string) None.
 Example override_contract_follows_registered_name :
   spec_sig_str (spec_of ex_override) = "foo(uint64)uint64"%string /\
   dispatched_sig_str ex_override = "foo(uint64)uint64"%string.
